@@ -1,0 +1,160 @@
+//go:build verif
+
+package event
+
+import (
+	"fmt"
+	"reflect"
+	"regexp"
+	"strings"
+
+	"gorm.io/gorm"
+	"gorm.io/gorm/callbacks"
+)
+
+// Verification hook (build tag `verif` only).  Add-only; not compiled without the tag.
+//
+// The tag handlers of the event database batch their updates with UpdateBuilder, which emits the
+// Postgres-only construction
+//
+//	UPDATE tbl SET col = <expr> FROM (SELECT unnest(?::text[]) AS id, unnest(?::bigint[]) AS col) AS t WHERE tbl.id = t.id
+//
+// The in-memory sqlite event database (NewInMemoryEventDb) rejects `unnest` and `::`.  The shim below
+// replaces gorm's raw-exec callback: every raw statement is reported to the observer with the array
+// arguments the real handler passed (the handler's arguments), and a statement of the above shape is
+// executed with the arrays spelled out as rows (SELECT ? AS id, ? AS col UNION ALL SELECT ?, ? ...);
+// SET expression, FROM alias and WHERE clause are the handler's own text, verbatim.
+
+// VerifBridgeStmt is one raw statement issued by a handler.
+type VerifBridgeStmt struct {
+	SQL        string          // as built by the real code
+	Cols       []string        // names of the unnest columns, in order
+	Rows       [][]interface{} // the array arguments, transposed: one row per index
+	Translated bool            // executed on sqlite in the row form
+	Err        string
+}
+
+var verifBridgeUnnest = regexp.MustCompile(`unnest\(\(?\s*\?\s*\)?::\w+\[\]\)\s+AS\s+(\w+)`)
+
+func verifBridgeSlice(v interface{}) ([]interface{}, bool) {
+	rv := reflect.ValueOf(v)
+	for rv.Kind() == reflect.Ptr || rv.Kind() == reflect.Interface {
+		if rv.IsNil() {
+			return nil, true
+		}
+		rv = rv.Elem()
+	}
+	if rv.Kind() == reflect.Struct && rv.NumField() == 1 { // pq.GenericArray{A: slice}
+		rv = rv.Field(0)
+		for rv.Kind() == reflect.Ptr || rv.Kind() == reflect.Interface {
+			rv = rv.Elem()
+		}
+	}
+	if rv.Kind() != reflect.Slice {
+		return nil, false
+	}
+	out := make([]interface{}, rv.Len())
+	for i := range out {
+		e := rv.Index(i)
+		switch e.Kind() {
+		case reflect.Int, reflect.Int8, reflect.Int16, reflect.Int32, reflect.Int64:
+			out[i] = e.Int()
+		case reflect.Uint, reflect.Uint8, reflect.Uint16, reflect.Uint32, reflect.Uint64:
+			out[i] = int64(e.Uint())
+		case reflect.String:
+			out[i] = e.String()
+		case reflect.Float32, reflect.Float64:
+			out[i] = e.Float()
+		case reflect.Bool:
+			out[i] = e.Bool()
+		default:
+			out[i] = e.Interface()
+		}
+	}
+	return out, true
+}
+
+// VerifBridgeSqliteShim installs the shim on the event database's gorm handle.  observe may be nil.
+func VerifBridgeSqliteShim(edb *EventDb, observe func(VerifBridgeStmt)) error {
+	db := edb.Store.Get()
+	return db.Callback().Raw().Replace("gorm:raw", func(tx *gorm.DB) {
+		sql := tx.Statement.SQL.String()
+		ms := verifBridgeUnnest.FindAllStringSubmatchIndex(sql, -1)
+		if len(ms) == 0 {
+			callbacks.RawExec(tx)
+			return
+		}
+		st := VerifBridgeStmt{SQL: sql}
+		report := func() {
+			if observe != nil {
+				observe(st)
+			}
+		}
+		if tx.Error != nil {
+			st.Err = tx.Error.Error()
+			report()
+			return
+		}
+		if len(ms) != len(tx.Statement.Vars) {
+			st.Err = fmt.Sprintf("verif shim: %d unnest columns but %d arguments", len(ms), len(tx.Statement.Vars))
+			_ = tx.AddError(fmt.Errorf("%s", st.Err))
+			report()
+			return
+		}
+		cols := make([][]interface{}, len(ms))
+		n := -1
+		for i, m := range ms {
+			st.Cols = append(st.Cols, sql[m[2]:m[3]])
+			vals, ok := verifBridgeSlice(tx.Statement.Vars[i])
+			if !ok || (n >= 0 && len(vals) != n) {
+				st.Err = "verif shim: argument is not an array of the common length"
+				_ = tx.AddError(fmt.Errorf("%s", st.Err))
+				report()
+				return
+			}
+			cols[i], n = vals, len(vals)
+		}
+		for r := 0; r < n; r++ {
+			row := make([]interface{}, len(cols))
+			for c := range cols {
+				row[c] = cols[c][r]
+			}
+			st.Rows = append(st.Rows, row)
+		}
+		if n <= 0 { // empty arrays: the Postgres statement joins with no rows
+			st.Translated = true
+			report()
+			return
+		}
+		var sel strings.Builder
+		var vars []interface{}
+		for r, row := range st.Rows {
+			if r > 0 {
+				sel.WriteString(" UNION ALL SELECT ")
+			}
+			for c := range row {
+				if c > 0 {
+					sel.WriteString(", ")
+				}
+				sel.WriteString("?")
+				if r == 0 {
+					sel.WriteString(" AS " + st.Cols[c])
+				}
+				vars = append(vars, row[c])
+			}
+		}
+		newSQL := sql[:ms[0][0]] + sel.String() + sql[ms[len(ms)-1][1]:]
+		if !tx.DryRun {
+			res, err := tx.Statement.ConnPool.ExecContext(tx.Statement.Context, newSQL, vars...)
+			if err != nil {
+				st.Err = err.Error()
+				_ = tx.AddError(err)
+				report()
+				return
+			}
+			tx.RowsAffected, _ = res.RowsAffected()
+		}
+		st.Translated = true
+		report()
+	})
+}
